@@ -179,7 +179,12 @@ CheckQuery(Q) ==
      \cup V("C06.exact-missing", missing = {},
        <<IF dottedOnly THEN "question for an instance name with a dot inside a label is never matched (wire names are compared unescaped with escaped registered names)"
          ELSE "missing", missing>>)
-     \cup V("C06.exact-extra", actAns \subseteq fix(may), <<"extra", actAns \ fix(may)>>)
+     \* an answer that is sent although the query lists exactly this record as known (the same rdata): C10's business
+     \cup V("C10.not-suppressed", {r \in actAns \ fix(may) : \E x \in ka : x.r.k = r.k /\ x.r.ty = r.ty /\ x.r.rk = r.rk} = {},
+            <<"answer sent although the query lists it as a known answer with at least half its TTL",
+              {r \in actAns \ fix(may) : \E x \in ka : x.r.k = r.k /\ x.r.ty = r.ty /\ x.r.rk = r.rk}>>)
+     \cup V("C06.exact-extra", {r \in actAns \ fix(may) : ~\E x \in ka : x.r.k = r.k /\ x.r.ty = r.ty /\ x.r.rk = r.rk} = {},
+            <<"extra", {r \in actAns \ fix(may) : ~\E x \in ka : x.r.k = r.k /\ x.r.ty = r.ty /\ x.r.rk = r.rk}>>)
      \cup V("C06.silent", (may = {}) => (mine = {}), <<"response without matching announced service">>)
      \cup V("C06.additionals", fix(reqAdd) \subseteq (actAdd \cup actAns), <<"missing additional", fix(reqAdd) \ (actAdd \cup actAns)>>)
      \cup V("C10.additionals", (actAdd \ fix(okAdd)) \cap fix(suppAdd) = {},
